@@ -463,9 +463,18 @@ def run_tree(ctx, p):
         what = lambda: '%s of a %s holding %d value(s) %s' % (name, clsname, len(top), core.short(top.data, 300))
         try:
             r = f(top)
-        except ValueError:
-            ctx.ood('class.op')      # the converting constructor re-validates with its own (100 eps) test, which a value that has
-            continue                 # drifted through several products may fail: a refusal, not a returned non-member
+        except ValueError as exc:
+            # the converting constructor re-validates with its own (100 eps) test, which a value that has drifted through several
+            # products may fail: a refusal, not a returned non-member.  A value that passes the library's own test is owed a result.
+            try:
+                fresh = all((abs(float(np.linalg.norm(x)) - 1) < 2e-15) if clsname == 'UnitQuaternion' else bool(type(top).isvalid(x, check=True)) for x in top.data)
+            except Exception:
+                fresh = False
+            if fresh:
+                ctx.bad('class.op', dict(sig, kind='conversion_refused', exc='ValueError', where=_where(exc)), '%s raised %r although every value passes the validity test of its class' % (what(), exc))
+            else:
+                ctx.ood('class.op')
+            continue
         except Exception as exc:
             ctx.bad('class.op', dict(sig, kind='raised', exc=type(exc).__name__, where=_where(exc)), '%s raised %r' % (what(), exc))
             continue
